@@ -81,7 +81,11 @@ pub fn line_to_cmds(line: &str) -> Vec<String> {
         }
 
         if c == '#' {
-            if sep.is_empty() {
+            // a comment starts at the beginning of a word only: the `#`
+            // of `a#b` is part of the word
+            let at_word_start = token.is_empty() ||
+                token.ends_with(' ') || token.ends_with('\t');
+            if sep.is_empty() && at_word_start {
                 break;
             } else {
                 token.push(c);
